@@ -7,8 +7,10 @@
    ValueError; every file save produces from a self-contained IR is accepted.
    Totality ("never hangs"): every function of Model/Proto.v is a structural Fixpoint or a non-recursive Definition, so
    `load f p` reduces to Ok _ or Err _ for all f and p; there is nothing to prove beyond C17_load_dichotomy.
-   EImpossible is the model's marker for "a node of the same class with that UUID is already cached" (the implementation
-   would reuse and move the cached node; that merge is outside this model).
+   A UUID defined twice in one message is rejected with DeserializationError whatever the classes of the two
+   definitions (C17_duplicate_uuid_rejected): a node is never reused, moved or merged by the reader.  Consequently the
+   reader has exactly three rejection classes and the model's EImpossible cannot be returned by from_proto or load
+   (C17_never_impossible).
    Arbitrary BYTES are the protobuf parser's domain: that malformed wire data raises DecodeError (and never reaches
    _from_protobuf) is covered by the fault enumeration of the harness, not here.
    Model: Model/Proto.v.  Proofs: Proofs/ProtoReaderBase.v, Proofs/ProtoReader.v, Proofs/ProtoRoundTrip.v, Proofs/ProtoProps.v.
@@ -37,13 +39,13 @@ Proof. exact coherent_can_be_saved_and_reloaded. Qed.
 
 (* ---------- reject => one of the documented classes ---------- *)
 Theorem C17_reject_only : forall p e,
-  from_proto p = Err e -> e = EValue \/ e = EDeser \/ e = EType \/ e = EImpossible.
+  from_proto p = Err e -> e = EValue \/ e = EDeser \/ e = EType.
 Proof. exact reject_only. Qed.
 
 (* the two outcomes, through the header *)
 Theorem C17_load_dichotomy : forall f p, msg_ok p = true ->
   (exists c, load f p = Ok c /\ wf c = true /\ refs_closed c /\ from_proto (to_proto c) = Ok c)
-  \/ (exists e, load f p = Err e /\ (e = EValue \/ e = EDeser \/ e = EType \/ e = EImpossible)).
+  \/ (exists e, load f p = Err e /\ (e = EValue \/ e = EDeser \/ e = EType)).
 Proof. exact load_dichotomy. Qed.
 
 (* ---------- rejection classes ---------- *)
@@ -76,8 +78,20 @@ Theorem C17_wrong_version : forall p u,
   uuid_of_bytes (i_uuid p) = Ok u -> i_version p <> py_protobuf_version -> from_proto p = Err EValue.
 Proof. exact wrong_version. Qed.
 
+(* a UUID that already names a decoded node -- of whatever class -- cannot be defined again *)
+Theorem C17_duplicate_uuid_rejected : forall t u k k', tlookup t u = Some k' -> fresh t u k = Err EDeser.
+Proof. exact dup_rejected. Qed.
+
 Theorem C17_dup_other_kind : forall t u k k', tlookup t u = Some k' -> k' <> k -> fresh t u k = Err EDeser.
 Proof. exact dup_other_kind. Qed.
+
+(* the definition check fails in no other way and on no other UUIDs *)
+Theorem C17_fresh_err_iff : forall t u k e,
+  fresh t u k = Err e <-> (e = EDeser /\ exists k', tlookup t u = Some k').
+Proof. exact fresh_err_iff. Qed.
+
+Theorem C17_fresh_never_impossible : forall t u k, fresh t u k <> Err EImpossible.
+Proof. exact fresh_never_impossible. Qed.
 
 Theorem C17_dangling_reference : forall t bs ok u,
   uuid_of_bytes bs = Ok u -> tlookup t u = None -> resolve t bs ok = Err EDeser.
@@ -110,8 +124,11 @@ Theorem C17_load_accept : forall f p c,
 Proof. exact load_accept. Qed.
 
 Theorem C17_load_reject : forall f p e,
-  load f p = Err e -> e = EValue \/ e = EDeser \/ e = EType \/ e = EImpossible.
+  load f p = Err e -> e = EValue \/ e = EDeser \/ e = EType.
 Proof. exact load_reject. Qed.
+
+Theorem C17_never_impossible : forall f p, from_proto p <> Err EImpossible /\ load f p <> Err EImpossible.
+Proof. exact (fun f p => conj (from_proto_never_impossible p) (load_never_impossible f p)). Qed.
 
 (* every file produced by save from a self-contained IR is accepted (and gives that IR) *)
 Theorem C17_saved_files_accepted : forall c, wf c = true -> load (fst (save c)) (snd (save c)) = Ok c.
@@ -133,6 +150,14 @@ Proof.
   eexists. split; [vm_compute; reflexivity|]. vm_compute. reflexivity.
 Qed.
 
+(* non-vacuity of the duplicate rule, same class: the accepted message with its module list given twice (the second
+   module redefines the UUID of the first, both are modules) is a DeserializationError *)
+Example C17_example_duplicate :
+  load header {| i_uuid := i_uuid ex_msg; i_modules := i_modules ex_msg ++ i_modules ex_msg; i_aux := i_aux ex_msg;
+                 i_version := i_version ex_msg; i_vertices := i_vertices ex_msg; i_edges := i_edges ex_msg |}
+  = Err EDeser.
+Proof. vm_compute. reflexivity. Qed.
+
 Print Assumptions C17_accept_coherent.
 Print Assumptions C17_accept_refs_typed.
 Print Assumptions C17_accept_bytes_within_size.
@@ -146,7 +171,10 @@ Print Assumptions C17_block_without_payload.
 Print Assumptions C17_expr_without_value.
 Print Assumptions C17_bytes_beyond_size.
 Print Assumptions C17_wrong_version.
+Print Assumptions C17_duplicate_uuid_rejected.
 Print Assumptions C17_dup_other_kind.
+Print Assumptions C17_fresh_err_iff.
+Print Assumptions C17_fresh_never_impossible.
 Print Assumptions C17_dangling_reference.
 Print Assumptions C17_illtyped_reference.
 Print Assumptions C17_header_gate.
@@ -155,4 +183,7 @@ Print Assumptions C17_load_bad_header.
 Print Assumptions C17_load_wrong_version_field.
 Print Assumptions C17_load_accept.
 Print Assumptions C17_load_reject.
+Print Assumptions C17_never_impossible.
 Print Assumptions C17_saved_files_accepted.
+Print Assumptions C17_example.
+Print Assumptions C17_example_duplicate.
